@@ -15,6 +15,8 @@ import (
 	"strings"
 	"time"
 
+	"github.com/dgraph-io/badger/v4"
+
 	"github.com/mimiro-io/datahub/internal/verifhook"
 )
 
@@ -358,4 +360,23 @@ func tail(s string, n int) string {
 		return s[len(s)-n:]
 	}
 	return s
+}
+
+// RestoreBackup loads a native backup file into an empty store directory
+// (badger's Load natively; the modelled equivalent under gosx).
+func (h *H) RestoreBackup(file, dir string) {
+	_ = os.MkdirAll(dir, 0o755)
+	opts := badger.DefaultOptions(dir)
+	opts.Logger = nil
+	db, err := badger.Open(opts)
+	if err != nil {
+		panic(rejected{"restore: " + err.Error()})
+	}
+	defer db.Close()
+	f, err := os.Open(file)
+	if err != nil {
+		return // no backup file: an empty store
+	}
+	defer f.Close()
+	_ = db.Load(f, 16)
 }
